@@ -266,7 +266,9 @@ func (r *SexpArray) Type() *RegisteredType {
 		if len(r.Val) > 0 {
 			// take type from first element
 			ty := r.Val[0].Type()
-			if ty != nil {
+			// a registered type without a Go type (hash: its factory makes
+			// nothing) has no slice type; reflect.SliceOf(nil) panics.
+			if ty != nil && ty.TypeCache != nil {
 				r.Typ = GoStructRegistry.GetOrCreateSliceType(ty)
 			}
 		} else {
